@@ -11,6 +11,11 @@
                              which starts only top-level lines of level L has f_ind = L, f_cont = 0, f_sp = 0, 1 <= f_nl <= 2
                              (conditional directives: a token can be decided by several lines, the last decision wins —
                              hence "last decision").
+     olf_phase1_line_starts_lines: the same with the condition on the lines (starts_top: every line that starts with token t
+                             has no parent, is not the Eof line, has level L);
+     olf_line_starts:        both settings of format_multiline_strings: the last decision over the plan of phase 1 and the plan of
+                             the reflow of phase 2 (olf_plan1 ++ olf_plan2);
+     option_ws, cls_options_ws, solve_children_ws: what each ChildLineOption carries (continued in WrapChildLevelsProofs.v).
    When the first decision is not a break: format_line chooses FirstDecision::Continue {0, can_break} for the file's first
    token (token 0), and a first token whose invariant is MustNotBreak (token 0, an inline comment) continues even under
    FirstDecision::Break (first_dec); the unit `levels` skips exactly these. *)
